@@ -113,6 +113,15 @@ func vxBlock1(tag string, a1, a2, slotW, slotN *felt.Felt) core.StateDiff {
 			diff.Nonces[*a2] = vxFeltIn(tag + "nonceB")
 		}
 	}
+	switch vx.Choice(tag+"sysWrite", 4) {
+	case 1:
+		diff.StorageDiffs[*felt.NewFromUint64[felt.Felt](1)] = map[felt.Felt]*felt.Felt{*slotW: vxFeltIn(tag + "sys1")}
+	case 2:
+		diff.StorageDiffs[*felt.NewFromUint64[felt.Felt](2)] = map[felt.Felt]*felt.Felt{*slotW: vxFeltIn(tag + "sys2")}
+	case 3:
+		diff.StorageDiffs[*felt.NewFromUint64[felt.Felt](1)] = map[felt.Felt]*felt.Felt{*slotW: vxFeltIn(tag + "sys1")}
+		diff.StorageDiffs[*felt.NewFromUint64[felt.Felt](2)] = map[felt.Felt]*felt.Felt{*slotW: vxFeltIn(tag + "sys2")}
+	}
 	return diff
 }
 
